@@ -170,12 +170,13 @@ def c15g(name, fn):
 CHECKS["C15"] = {
     "technique": "arbitrary symbolic bytes after each tag in a valid frame through the real decoders (panic conditions and structural post-conditions as solver queries); "
                  "an independent strict RFC 8216 line grammar, symbolically executed over the real Marshal output for the C14 value space",
-    "bounds": {"quick": {"decoder": "one tag (27 media / 9 multivariant prefixes, incl. attribute-list prefixes) + 5 arbitrary bytes, in two frame positions", "grammar": "C14 value space with integers < 10^4"},
-               "thorough": {"decoder": "8 arbitrary bytes", "grammar": "integers < 10^5"}},
+    "bounds": {"quick": {"decoder": "one tag (27 media / 9 multivariant prefixes, incl. attribute-list prefixes) + 6 arbitrary bytes, in two frame positions", "grammar": "C14 value space with integers < 10^4",
+                         "request query": "{'', 't=', '_HLS_msn=1&'} + 3 arbitrary printable bytes through filterOutHLSParams (net/url from source); 3 arbitrary printable bytes through generateMultivariantPlaylist of a video+audio fMP4 muxer"},
+               "thorough": {"decoder": "8 arbitrary bytes", "grammar": "integers < 10^5", "request query": "5 arbitrary bytes"}},
     "assumptions": ["strconv.ParseFloat / time.Parse on symbolic text return a nondeterministic (representative value | error), incl. 0, NaN and +Inf for floats",
                     "segment titles ASCII (strings.TrimSpace's Unicode path not encoded)", "a MediaServerControl value sets at least one attribute",
                     "playlists served by a muxer are covered through the C14 value space (same Marshal code) and, natively, by the replay of the muxer harnesses"],
-    "outside": ["more than one arbitrary line per document", "coverage-guided fuzzing of whole documents (different technique)"],
+    "outside": ["request queries longer than the stated number of arbitrary bytes; bytes outside printable ASCII in a query (net/http does not deliver them)", "more than one arbitrary line per document", "coverage-guided fuzzing of whole documents (different technique)"],
     "runs": [
         {"name": "run.pl.decoder.media", "dir": "pkg/playlist", "files": C15F, "fn": "VerifH_C15_mediaDecoder", "workers": 16,
          "params_quick": {"L": 6}, "params_thorough": {"L": 8}, "reach": ["accepted", "rejected"], "budget_quick": 900, "budget_thorough": 7200},
